@@ -49,6 +49,10 @@ def txnTypeUnion (a b : List Nat) : List Nat :=
 def txnTypeInter (a b : List Nat) : List Nat :=
   (Tealer.OSet.inter a b)
 
+/-- translated from AddrFields._get_asserted_address; `text` = str(ins) -/
+def addrAsserted (ins : Tealer.Op) (text : String) : List String :=
+  (if (ins == Tealer.Op.global "ZeroAddress") then (Tealer.OSet.ofList [Tealer.Generated.NO_ADDRESS]) else (match ins with | Tealer.Op.addr addr_ => (if (addr_ == Tealer.Generated.ZERO_ADDRESS) then (Tealer.OSet.ofList [Tealer.Generated.NO_ADDRESS]) else (Tealer.OSet.ofList [addr_])) | _ => (if (ins == Tealer.Op.global "CreatorAddress") then (Tealer.OSet.ofList [Tealer.Generated.CREATOR_ADDRESS]) else (Tealer.OSet.ofList [(Tealer.Generated.SOME_ADDRESS ++ "_" ++ text)]))))
+
 /-- the fields of a block context that the detector predicates read -/
 structure GCtx where
   rekeytoAny : Bool
